@@ -168,6 +168,13 @@ def check(A):
                     'lifespan is forwarded to the wrapped app when no callbacks are configured',
                     A.site(ls), key='lifespan-forward', detail=v0.describe())
             continue
+        if v0.calls('self.other_asgi_app(scope, receive, send)'):
+            A.violated('C20.lifespan', 'lifespan is forwarded to the wrapped app only when '
+                       'neither a startup nor a shutdown callback is configured', A.site(ls),
+                       key='lifespan-forward-guard', detail=v0.describe(),
+                       behaviour='a configured on_startup / on_shutdown callback never runs and '
+                                 'the middleware never answers complete / failed')
+            continue
         # split into events (one receive() each)
         rec = [i for i, _ in v0.calls('receive()')]
         for k, ri in enumerate(rec):
